@@ -298,6 +298,8 @@ impl MempoolModel {
             let mut last_was_maintain = false;
             let mut last_insert_current: Option<usize> = None;
             let mut shown_nonce: BTreeMap<Acct, u32> = BTreeMap::new();
+            // the highest account nonce ever shown (an insert may carry an older view than an earlier one)
+            let mut max_shown_nonce: BTreeMap<Acct, u32> = BTreeMap::new();
             for (n, ev) in hist.iter().enumerate() {
                 // distinct first-seen instants, so queue order never depends on hash-map order
                 tokio::time::advance(std::time::Duration::from_millis(1)).await;
@@ -317,6 +319,8 @@ impl MempoolModel {
                         let costs = self.pool.costs[usize::from(view.fee_raised)][*i].clone();
                         let r = mempool.insert(tx.clone(), nonce, &balances, costs).await;
                         shown_nonce.insert(spec.acct, nonce);
+                        let m = max_shown_nonce.entry(spec.acct).or_insert(0);
+                        *m = (*m).max(nonce);
                         if r.is_ok() {
                             accepted.insert(*i);
                             if *current && in_sync {
@@ -356,6 +360,10 @@ impl MempoolModel {
                         mempool.run_maintenance(&state, recost, std::mem::take(&mut included_pending), height).await;
                         last_maintained = chain.clone();
                         shown_nonce = chain.nonce.clone();
+                        for (a, n) in &chain.nonce {
+                            let m = max_shown_nonce.entry(*a).or_insert(0);
+                            *m = (*m).max(*n);
+                        }
                         in_sync = true;
                         last_was_maintain = true;
                     }
@@ -471,10 +479,20 @@ impl MempoolModel {
                     let shown = shown_nonce.get(a).copied().unwrap_or(0);
                     let fresh: Vec<u32> = nonces.iter().copied().filter(|n| *n >= shown).collect();
                     let stale_only_gap = fresh.windows(2).all(|w| w[1] == w[0] + 1) && fresh.first().map_or(true, |f| *f == shown);
+                    // or by an insert that carried an *older* view than one shown before (CheckTx
+                    // read its snapshot before a commit and inserted after a later CheckTx): entries
+                    // from the highest nonce ever shown are consecutive, the rest lie below it
+                    let max_shown = max_shown_nonce.get(a).copied().unwrap_or(0);
+                    let above: Vec<u32> = nonces.iter().copied().filter(|n| *n >= max_shown).collect();
+                    let older_view_gap = shown < max_shown
+                        && above.windows(2).all(|w| w[1] == w[0] + 1)
+                        && above.first().map_or(true, |f| *f == max_shown);
                     violation = viol(
                         "pending-consecutive",
                         if stale_only_gap {
                             "pending keeps nonces below a newly shown account nonce until the next maintenance"
+                        } else if older_view_gap {
+                            "an insert carrying an older account nonce than already shown is accepted below the pending entries until the next maintenance"
                         } else {
                             "gap in pending nonces"
                         },
@@ -656,10 +674,11 @@ fn alphabet(pool: &Pool, thorough: bool) -> Vec<Ev> {
     }
     v.push(Ev::RaiseTransferFee);
     v.push(Ev::AdvancePastTtl);
-    if thorough {
-        for i in 0..pool.txs.len() {
-            v.push(Ev::Insert(i, false));
-        }
+    // inserts that carry the chain view of before the last change (CheckTx reads its snapshot before
+    // it takes the mempool lock)
+    let _ = thorough;
+    for i in 0..pool.txs.len() {
+        v.push(Ev::Insert(i, false));
     }
     v
 }
@@ -724,7 +743,7 @@ fn verif_c13() {
          on the inner containers and the public API: one place only, accepted => status known, consecutive pending nonces, \
          builder order, parked limit, and after maintenance: no used nonce, pending starts at the chain nonce and is \
          affordable",
-        if thorough { " and stale" } else { "" }
+        " and stale"
     ));
     let mut outcomes = 0;
     for parked_max in [1usize, 2, 100] {
